@@ -70,6 +70,10 @@ type Client struct {
 
 // Call calls specified method of the Neo smart contract with provided arguments.
 func (c *Client) Call(contract util.Uint160, method string, args ...any) (*result.Invoke, error) {
+	if ok, res, err := c.verifIntercept("Call", contract, method, args); ok {
+		r, _ := res.(*result.Invoke)
+		return r, err
+	}
 	var conn = c.conn.Load()
 
 	if conn == nil {
@@ -95,6 +99,9 @@ func (c *Client) CallAndExpandIterator(contract util.Uint160, method string, max
 // TerminateSession closes opened session by its ID on the currently active Neo
 // RPC node the Client connected to. Returns true even if session was not found.
 func (c *Client) TerminateSession(sessionID uuid.UUID) (bool, error) {
+	if ok, _, err := c.verifIntercept("TerminateSession", sessionID); ok {
+		return true, err
+	}
 	var conn = c.conn.Load()
 
 	if conn == nil {
@@ -110,6 +117,10 @@ func (c *Client) TerminateSession(sessionID uuid.UUID) (bool, error) {
 // Neo RPC node the Client connected to. Returns empty result if either there is
 // no more elements or session is closed.
 func (c *Client) TraverseIterator(sessionID, iteratorID uuid.UUID, maxItemsCount int) ([]stackitem.Item, error) {
+	if ok, res, err := c.verifIntercept("TraverseIterator", sessionID, iteratorID, maxItemsCount); ok {
+		items, _ := res.([]stackitem.Item)
+		return items, err
+	}
 	var conn = c.conn.Load()
 
 	if conn == nil {
@@ -304,6 +315,9 @@ func (e *notHaltStateError) Error() string {
 // Note: true await flag always means additional subscription for [Client] which
 // is always limited on server side, use it carefully.
 func (c *Client) Invoke(ctx context.Context, contract util.Uint160, await, payByProxy bool, fee fixedn.Fixed8, method string, args ...any) error {
+	if ok, _, err := c.verifIntercept("Invoke", contract, method, args); ok {
+		return err
+	}
 	var conn = c.conn.Load()
 
 	if conn == nil {
@@ -356,6 +370,10 @@ func (c *Client) TestInvoke(contract util.Uint160, method string, args ...any) (
 // If prefetchElements > 0, that many elements are tried to be placed on stack without
 // additional network communication (without the iterator expansion).
 func (c *Client) TestInvokeIterator(contract util.Uint160, method string, prefetchElements int, args ...any) (res []stackitem.Item, err error) {
+	if ok, res, err := c.verifIntercept("TestInvokeIterator", contract, method, args); ok {
+		items, _ := res.([]stackitem.Item)
+		return items, err
+	}
 	var conn = c.conn.Load()
 
 	if conn == nil {
@@ -407,6 +425,9 @@ func (c *Client) TestInvokeIterator(contract util.Uint160, method string, prefet
 
 // TransferGas to the receiver from local wallet.
 func (c *Client) TransferGas(receiver util.Uint160, amount fixedn.Fixed8) error {
+	if ok, _, err := c.verifIntercept("TransferGas", receiver, amount); ok {
+		return err
+	}
 	var conn = c.conn.Load()
 
 	if conn == nil {
@@ -570,6 +591,10 @@ func (c *Client) IsValidScript(script []byte, signers []transaction.Signer) (boo
 // tokens for. Nil key with no error is returned if the account has no NEO
 // or if the account hasn't voted for anyone.
 func (c *Client) AccountVote(addr util.Uint160) (*keys.PublicKey, error) {
+	if ok, res, err := c.verifIntercept("AccountVote", addr); ok {
+		k, _ := res.(*keys.PublicKey)
+		return k, err
+	}
 	var conn = c.conn.Load()
 
 	if conn == nil {
